@@ -288,6 +288,12 @@ func genAdminPlan(r *rand.Rand, tier string) *vfPlan {
 		p.Cfg.GroupPrepend = "git-" // directory group names are prefixed; the configured admin group carries the prefix
 	}
 	add := func(s vfStep) { p.Steps = append(p.Steps, s) }
+	lookalike := ""
+	if p.Cfg.GroupPrepend != "" && chance(r, 0.5) {
+		// the directory has a group of its own whose name already begins with the configured prefix; an ordinary user is in it
+		lookalike = pick(r, []string{"mallory", "bob"})
+		add(vfStep{Op: "dir_group", User: lookalike, A: "add", B: p.Cfg.GroupPrepend + vfAdminGroup})
+	}
 	add(vfStep{Op: "setup_totp", User: "alice"})
 	add(vfStep{Op: "setup_u2f", User: "alice", Target: "tok1"})
 	add(vfStep{Op: "setup_u2f", User: "bob", Target: "tok2"})
@@ -303,6 +309,10 @@ func genAdminPlan(r *rand.Rand, tier string) *vfPlan {
 	sess := []string{"x1", "x2", "x3", "x4"}
 	for i, s := range sess {
 		add(vfStep{Op: "mintsession", Sess: s, User: actors[(i+r.IntN(6))%6], N: int64(pick(r, levels))})
+	}
+	if lookalike != "" {
+		// ... and has a fully authenticated session
+		add(vfStep{Op: "mintsession", Sess: pick(r, sess), User: lookalike, N: int64(AuthTypePassword | AuthTypeU2F)})
 	}
 	targets := []string{"alice", "bob", "mallory", "carol"}
 	ops := []string{"list", "add", "delete", "newotp", "viewprofile", "tok", "tok", "totptok", "regreq", "regresp", "waregbegin"}
